@@ -45,7 +45,17 @@ def w_states(items):
             if v == "~absent":
                 continue
             name = FOREIGN_ATTR if slot == "~foreignAttr" else slot
-            want[name] = UNLISTED_VAL if v == "~unlisted" else v
+            if v == "~unlisted":
+                # one unlisted value stands for all of them - concretised adversarially: values that resemble listed ones
+                listed = [x for x in (rules[unit][0].get(slot) or [None])[1:]]
+                pool = [UNLISTED_VAL, ""]
+                for x in listed:
+                    pool += [x[: max(1, len(x) // 2)], x[1:], x.upper(), x + " ", " " + x, x + x]
+                if len(listed) > 1:
+                    pool += [", ".join(listed[:2]), listed[0] + listed[1]]
+                pool = [x for x in pool if x not in listed]
+                v = rnd.choice(pool)
+            want[name] = v
         order = list(want.items())
         rnd.shuffle(order)
         for name, v in order:
@@ -97,7 +107,7 @@ def run(rep, tier, seed):
         if el != "metadata":
             elem.setdefault(ru, el)
     G.update(A=A, rules=rules, dfas=dfas, elem=elem)
-    reps = 2 if tier == "quick" else 40
+    reps = 6 if tier == "quick" else 60
     items = [(i, seed * 7907 + i * 131 + k) for i in range(len(A)) for k in range(reps)]
     nS = 0
     for n, outl in parallel(w_states, items):
